@@ -13,6 +13,8 @@ Template syntax (units/*.vrs) -- plain Verus text plus directive lines:
   //@ raw                          copy the item verbatim (struct/enum/const), only `rewrite`s apply
   //@ slice /re-first/ .. /re-last/   statement slice (lines matched inside the fn body, each exactly once; `$` = end of body)
   //@ slice-after /re/ .. /re-last/   as slice, but starting after the statement that begins on the anchored line
+  //@ from /re/                    with slice: anchors are looked for from the first line of the fn body that matches re
+                                   (e.g. the pattern of a match arm), the slice start being the first match from there
   //@ arm /re/                     the match arm whose pattern line matches (arm body must be a block)
   //@ header <signature text>      replaces the repository signature (required for slice/arm)
   //@ ret <name>                   whole fn: name the return value  `-> T`  =>  `-> (name: T)`
@@ -112,6 +114,7 @@ class Block:
         self.early_return = False
         self.declared_unreachable = False
         self.slice_after = False
+        self.slice_from = None
         self.imported_from = None
 
 
@@ -192,6 +195,11 @@ def parse_template(path):
                     raise ExtractError('template %s:%d bad slice' % (path, ln))
                 cur.slice = (mm.group(1), mm.group(2))
                 cur.slice_after = (key == 'slice-after')
+            elif key == 'from':
+                mm = re.fullmatch(r'/(.*)/', arg)
+                if not mm:
+                    raise ExtractError('template %s:%d bad from' % (path, ln))
+                cur.slice_from = mm.group(1)
             elif key == 'arm':
                 mm = re.fullmatch(r'/(.*)/', arg)
                 cur.arm = mm.group(1)
@@ -390,7 +398,11 @@ def expand_block(blk, gen, unit_id):
     kind = 'fn'
     if blk.slice:
         kind = 'statement-slice'
-        a = rf.unique_line(blk.slice[0], body_lo, body_hi, 'slice start')
+        if blk.slice_from:
+            f0 = rf.first_line_from(blk.slice_from, body_lo, body_hi, 'slice from')
+            a = rf.first_line_from(blk.slice[0], f0, body_hi, 'slice start')
+        else:
+            a = rf.unique_line(blk.slice[0], body_lo, body_hi, 'slice start')
         if blk.slice_after:
             # the slice begins on the line after the END of the statement that starts on the anchored line
             e0 = rf.stmt_end(a, body_hi)
